@@ -914,3 +914,151 @@ func (x *Exec) scanSharedFlagReads(funcs []*ssa.Function) []*ObResult {
 	}
 	return out
 }
+
+// scanRecursion (C08): termination of recursion is proved call by call as rec-dec obligations,
+// which exist only where caller and callee both declare a variant. This scan closes the gap:
+// a function of the cone that can reach itself through calls (static calls, closures, function
+// values it mentions, interface dispatch over the module's types) must declare `decreases`,
+// so that every recursive call on the cycle carries a rec-dec obligation. One obligation per
+// function of the cone that lies on a call cycle.
+func (x *Exec) scanRecursion(cone []*ssa.Function) []*ObResult {
+	var named []*types.Named
+	for _, p := range x.ld.ppkgByName {
+		if p.Types == nil {
+			continue
+		}
+		sc := p.Types.Scope()
+		for _, n := range sc.Names() {
+			if tn, ok := sc.Lookup(n).(*types.TypeName); ok {
+				if nt, ok := tn.Type().(*types.Named); ok {
+					named = append(named, nt)
+				}
+			}
+		}
+	}
+	norm := func(f *ssa.Function) *ssa.Function {
+		if f == nil || !inModule(f) {
+			return nil
+		}
+		if strings.HasPrefix(f.Synthetic, "bound method wrapper") || strings.HasPrefix(f.Synthetic, "wrapper") || strings.HasPrefix(f.Synthetic, "thunk") {
+			if tf, ok := f.Object().(*types.Func); ok {
+				if real := x.ld.prog.FuncValue(tf); real != nil {
+					f = real
+				}
+			}
+		}
+		if len(f.Blocks) == 0 {
+			return nil
+		}
+		return f
+	}
+	succCache := map[*ssa.Function][]*ssa.Function{}
+	succs := func(f *ssa.Function) []*ssa.Function {
+		if s, ok := succCache[f]; ok {
+			return s
+		}
+		set := map[*ssa.Function]bool{}
+		for _, b := range f.Blocks {
+			for _, in := range b.Instrs {
+				for _, op := range in.Operands(nil) {
+					if op == nil || *op == nil {
+						continue
+					}
+					if fn, ok := (*op).(*ssa.Function); ok {
+						if g := norm(fn); g != nil {
+							set[g] = true
+						}
+					}
+				}
+				ci, ok := in.(ssa.CallInstruction)
+				if !ok {
+					continue
+				}
+				c := ci.Common()
+				if !c.IsInvoke() {
+					// a dynamic call through a func type with a family: every member
+					if c.StaticCallee() == nil {
+						if fam := x.funcTypeFamily(c.Value.Type()); fam != nil {
+							for real, ms := range x.funcFamilyMembers() {
+								for _, m := range ms {
+									if m.fam == fam {
+										if g := norm(real); g != nil {
+											set[g] = true
+										}
+									}
+								}
+							}
+						}
+					}
+					continue
+				}
+				iface, ok := c.Value.Type().Underlying().(*types.Interface)
+				if !ok {
+					continue
+				}
+				for _, nt := range named {
+					for _, t := range []types.Type{nt, types.NewPointer(nt)} {
+						if types.IsInterface(t) || !types.Implements(t, iface) {
+							continue
+						}
+						ms := x.ld.prog.MethodSets.MethodSet(t)
+						if sel := ms.Lookup(c.Method.Pkg(), c.Method.Name()); sel != nil {
+							if g := norm(x.ld.prog.MethodValue(sel)); g != nil {
+								set[g] = true
+							}
+						}
+					}
+				}
+			}
+		}
+		var out []*ssa.Function
+		for g := range set {
+			out = append(out, g)
+		}
+		sort.Slice(out, func(i, j int) bool { return funcKey(out[i]) < funcKey(out[j]) })
+		succCache[f] = out
+		return out
+	}
+	var out []*ObResult
+	for _, f := range cone {
+		if f == nil || len(f.Blocks) == 0 {
+			continue
+		}
+		// shortest call cycle through f, if any
+		prev := map[*ssa.Function]*ssa.Function{}
+		queue := []*ssa.Function{f}
+		var last *ssa.Function
+	search:
+		for len(queue) > 0 {
+			g := queue[0]
+			queue = queue[1:]
+			for _, h := range succs(g) {
+				if h == f {
+					last = g
+					break search
+				}
+				if _, ok := prev[h]; !ok {
+					prev[h] = g
+					queue = append(queue, h)
+				}
+			}
+		}
+		if last == nil {
+			continue
+		}
+		key := funcKey(f)
+		r := &ObResult{Name: key + "/scan:recursion-declares-a-variant", Func: key, Kind: "scan", Status: "proved", Solver: "ssa-scan", Instances: 1}
+		if c := x.contractFor(f); c == nil || c.RecDec == nil {
+			var cyc []string
+			for g := last; g != nil && g != f; g = prev[g] {
+				cyc = append([]string{funcKey(g)}, cyc...)
+			}
+			cyc = append([]string{key}, cyc...)
+			cyc = append(cyc, key)
+			r.Status = "refuted"
+			r.Raw = "call cycle without a declared variant (no `decreases` on " + key + "): " + strings.Join(cyc, " -> ")
+		}
+		out = append(out, r)
+	}
+	return out
+}
